@@ -125,6 +125,41 @@ fn boundary_lit() -> BoxedStrategy<String> {
         .boxed()
 }
 
+/// digit strings at machine-word boundaries (2^k + d for the word sizes a chunked accumulator
+/// may use), extended by free digits, with the radix point at ANY position: a reader that
+/// accumulates 8-digit chunks in 32/64-bit words overflows exactly when a digit prefix sits
+/// at such a boundary, and the chunk layout depends on where the point is
+fn word_lit() -> BoxedStrategy<String> {
+    (
+        sign(),
+        prop_oneof![Just(8u32), Just(16), Just(31), Just(32), Just(53), Just(63), Just(64), Just(96), Just(127), Just(128)],
+        prop_oneof![3 => -3i128..=3, 2 => 0i128..1_000_000_000, 1 => -1_000_000_000i128..0],
+        digits(0..=12),
+        0usize..=44,
+        0usize..=9,
+        0u8..4,
+        -2i32..=2,
+    )
+        .prop_map(|(s, k, d, tail, cut, lz, style, de)| {
+            let v = Big::pow2(k).add(&Big::from_i128(d));
+            let mut ds = v.abs_digits();
+            ds.push_str(&tail);
+            let cut = cut.min(ds.len());
+            let (a, b) = ds.split_at(ds.len() - cut);
+            let z = "0".repeat(lz);
+            match style {
+                // plain: integer digits '.' fraction digits (valid iff cut <= 18 and the value fits)
+                0 => format!("{s}{z}{a}.{b}"),
+                // the exponent brings the scale back into 0..=18 (or just outside with de)
+                1 => format!("{s}{z}{a}.{b}e{}", (cut as i32 - 18).max(0) + de),
+                // fraction only, with leading fraction zeros, and an exponent
+                2 => format!("{s}0.{z}{ds}e{}", (ds.len() + lz) as i32 - cut.min(18) as i32 + de),
+                _ => format!("{s}{z}{a}{}{b}", if cut > 0 { "." } else { "" }),
+            }
+        })
+        .boxed()
+}
+
 /// coefficient * 10^exp at the i128 edge, and scale limits 17/18/19
 fn scaled_edge_lit() -> BoxedStrategy<String> {
     (sign(), 0u32..=38, -3i128..=3, 0usize..=20, -1i32..=1, any::<bool>())
@@ -217,7 +252,7 @@ impl Prop for C06 {
         "C06"
     }
     fn rule(&self) -> String {
-        "Generated strings: (1) grammar-derived literals (sign, 0..=80 integer digits, 0..=45 fraction digits, exponents with sign, leading zeros, up to 30 exponent digits), digit strings constructed around 10^38, 2^127, 2^128, k*2^128+[10^38,2^127) (39-digit values that wrap), 2^256, 40+ digits, with radix points and compensating exponents, coefficient*10^exp at the i128 edge, fraction-exponent in {17,18,19}; \
+        "Generated strings: (1) grammar-derived literals (sign, 0..=80 integer digits, 0..=45 fraction digits, exponents with sign, leading zeros, up to 30 exponent digits), digit strings constructed around 10^38, 2^127, 2^128, digit strings 2^k + d (k in 8,16,31,32,53,63,64,96,127,128) extended by free digits with the radix point at every position and leading integer / fraction zeros, k*2^128+[10^38,2^127) (39-digit values that wrap), 2^256, 40+ digits, with radix points and compensating exponents, coefficient*10^exp at the i128 edge, fraction-exponent in {17,18,19}; \
          (2) near misses: one or two insert/delete/replace edits of a valid literal with digits, signs, '.', 'e', '_', blanks, NUL, non-ASCII digits, multi-byte characters; (3) arbitrary Unicode strings and lossy-decoded random bytes, long inputs (up to ~6000 bytes: thousands of leading zeros, fraction zeros, exponent zeros, digits); (4) a fixed list of corner literals. \
          from_str, TryFrom<&str>, TryFrom<String> and fpdec_core::str_to_dec must agree with a character-level reference parser with big-integer accumulation (Ok iff in grammar, scale <= 18, |coefficient| <= 2^127-1; exact coefficient and scale; Empty iff empty). \
          Memory safety: every string is parsed twice more from a buffer that ends exactly at (resp. starts right after) a PROT_NONE guard page, so an out-of-bounds read faults; a SIGSEGV handler turns the fault into a replay file and a VIOLATION line. \
@@ -241,6 +276,7 @@ impl Prop for C06 {
         prop_oneof![
             5 => grammar_lit(),
             4 => boundary_lit(),
+            3 => word_lit(),
             2 => scaled_edge_lit(),
             5 => near_miss(),
             1 => any::<String>(),
